@@ -30,7 +30,7 @@ type ErrorSite struct {
 type CtxSite struct {
 	Pkg     string `json:"pkg"`
 	Func    string `json:"func"`
-	Kind    string `json:"kind"` // direct | wrapW | flatten | dropped
+	Kind    string `json:"kind"`     // direct | wrapW | flatten | dropped
 	OnError bool   `json:"on_error"` // nested inside an `if err != nil` block (catch-all after a failed callee)
 	Pos     string `json:"pos"`
 }
